@@ -817,6 +817,28 @@ func (env *SpecEnv) call(e *SExpr) (SpecVal, error) {
 		}
 		s := env.term(args[0])
 		return SpecVal{V: tv("(select (select " + x.getSV("SH.Any", "(Array Int (Array Int Any))") + " (sref " + s + ")) (ix (soff " + s + ") " + env.term(args[1]) + "))")}, nil
+	case "backing":
+		// backing(s): the array of elements a slice views (indexed from its offset)
+		a, at, err := one()
+		if err != nil {
+			return SpecVal{}, err
+		}
+		if a.Go == nil {
+			return SpecVal{}, fmt.Errorf("backing: untyped")
+		}
+		st, ok := a.Go.Underlying().(*types.Slice)
+		if !ok {
+			return SpecVal{}, fmt.Errorf("backing: not a slice")
+		}
+		hsv, hso, _ := x.sliceHeap(st.Elem())
+		return SpecVal{V: tv("(select " + x.getSV(hsv, hso) + " (sref " + at + "))")}, nil
+	case "jhas":
+		// jhas(v, key): v is a JSON object (map[string]interface{}) that has the key
+		if len(args) != 2 {
+			return SpecVal{}, fmt.Errorf("jhas(value, key)")
+		}
+		v := env.term(args[0])
+		return SpecVal{V: tv("(and ((_ is AMap) " + v + ") (not (= (amap " + v + ") 0)) (select (select " + x.getSV("MapD.Str", "(Array Int (Array Str Bool))") + " (amap " + v + ")) " + env.term(args[1]) + "))"), Go: boolT}, nil
 	case "strlist":
 		a, _, err := one()
 		if err != nil {
